@@ -343,3 +343,44 @@ func verifErrKind(k uint64) error {
 	}
 	return errors.New("aspect failed")
 }
+
+// verifStackHook / verifMemoryHook let a step harness start the real
+// interpreter loop from an arbitrary operand stack and memory (the loader
+// rewrites the two constructor calls in Run to these functions).
+var verifStackHook func() *Stack
+var verifMemoryHook func() *Memory
+
+func verifNewStack() *Stack {
+	if verifStackHook != nil {
+		return verifStackHook()
+	}
+	return newstack()
+}
+func verifNewMemory() *Memory {
+	if verifMemoryHook != nil {
+		return verifMemoryHook()
+	}
+	return NewMemory()
+}
+
+// verifSnapLogger records, for every per-instruction callback, a copy of the
+// operand stack and memory as the interpreter presents them.
+type verifSnap struct {
+	pc    uint64
+	op    OpCode
+	gas   uint64
+	cost  uint64
+	stack []uint256.Int
+	mem   []byte
+	err   error
+}
+type verifSnapLogger struct {
+	verifLogger
+	snaps []verifSnap
+}
+
+func (l *verifSnapLogger) CaptureState(pc uint64, op OpCode, gas, cost uint64, scope *ScopeContext, rData []byte, depth int, err error) {
+	st := make([]uint256.Int, len(scope.Stack.data))
+	copy(st, scope.Stack.data)
+	l.snaps = append(l.snaps, verifSnap{pc: pc, op: op, gas: gas, cost: cost, stack: st, mem: common.CopyBytes(scope.Memory.store), err: err})
+}
